@@ -506,6 +506,7 @@ def shards(tier, seed):
     specs.append(dict(fam="b-sites"))
     specs.append(dict(fam="b-migs"))
     specs.append(dict(fam="b-nodes"))
+    specs.append(dict(fam="b-zero"))
     nsh = 40
     for i in range(nsh):
         specs.append(dict(fam="b-muts", rows=2, k=i, n=nsh, alphabet="full"))
@@ -605,6 +606,43 @@ def run_shard(spec):
             s["individuals"] = [(0, (parents[0],)), (0, (parents[1], -1))]
             judge(s, acc, "b-nodes", nontrivial=True)
         acc.sample({"fam": "b-nodes", "last": spec_json(s)})
+    elif fam == "b-zero":
+        # references into a table that has ZERO rows (or exactly one): every id is then out of range except
+        # NULL where NULL is allowed; "num_rows - 1" arithmetic has nothing to stand on
+        ids = (-2, -1, 0, 1, 2 ** 31 - 1)
+        for nn in (0, 1):
+            nodes = [(1, 0.0, -1, -1)] * nn
+            empty = {"L": 2.0, "nodes": nodes, "edges": [], "sites": [], "mutations": [], "migrations": [],
+                     "individuals": [], "populations": 0}
+            for u in ids:
+                for par in (-1, 0):
+                    for t in (V.unknown_time(), 0.5):
+                        s = dict(empty, sites=[(0.5, "0")], mutations=[(0, u, "1", par, t)])
+                        judge(s, acc, "b-zero", via_load=True, nontrivial=True)
+                s = dict(empty, populations=1, migrations=[(0.0, 2.0, u, 0, 0, 0.5)])
+                judge(s, acc, "b-zero", nontrivial=True)
+                for (l, r) in ((0.0, 2.0), (0.0, 1.0)):
+                    for c in ids:
+                        s = dict(empty, edges=[(l, r, u, c)])
+                        judge(s, acc, "b-zero", nontrivial=True)
+            for site in ids:
+                s = dict(empty, nodes=[(1, 0.0, -1, -1)], mutations=[(site, 0, "1", -1, V.unknown_time())])
+                judge(s, acc, "b-zero", via_load=True, nontrivial=True)
+            for pop in ids:
+                for npop in (0, 1):
+                    s = dict(empty, nodes=[(1, 0.0, pop, -1)], populations=npop)
+                    judge(s, acc, "b-zero", nontrivial=True)
+                    s = dict(empty, nodes=[(1, 0.0, -1, -1)], populations=npop, migrations=[(0.0, 2.0, 0, pop, 0, 0.5)])
+                    judge(s, acc, "b-zero", nontrivial=True)
+                    s = dict(empty, nodes=[(1, 0.0, -1, -1)], populations=npop, migrations=[(0.0, 2.0, 0, 0, pop, 0.5)])
+                    judge(s, acc, "b-zero", nontrivial=True)
+            for ind in ids:
+                for ninds in (0, 1):
+                    s = dict(empty, nodes=[(1, 0.0, -1, ind)], individuals=[(0, ())] * ninds)
+                    judge(s, acc, "b-zero", nontrivial=True)
+                    s = dict(empty, individuals=[(0, (ind,))] * max(ninds, 1))
+                    judge(s, acc, "b-zero", nontrivial=True)
+        acc.sample({"fam": "b-zero", "last": spec_json(s)})
     elif fam == "b-muts":
         base = base_two_trees()
         base["sites"] = [(0.5, "0"), (1.0, "0")]
@@ -647,5 +685,5 @@ def replay(case):
     acc = Acc()
     spec = spec_unjson(case["spec"])
     fam = case["fam"]
-    judge(spec, acc, fam, via_load=fam.startswith("c:") or fam == "a")
+    judge(spec, acc, fam, via_load=fam.startswith("c:") or fam in ("a", "b-zero"))
     return acc.failures
